@@ -54,7 +54,7 @@ class FIXTester:
             # target and session swapped! Because we mimic the server
             j = Journaler()
             self.conn_accept = AsyncFIXConnection(
-                FIXProtocol44(),
+                type(connection.protocol)(),
                 target_comp_id=self.conn_init._session.sender_comp_id,
                 sender_comp_id=self.conn_init._session.target_comp_id,
                 journaler=j,
